@@ -212,6 +212,11 @@ func runProperty(prop, tier, only string, seed, workers int, verbose, noReplay b
 			for m, n := range r.Problems {
 				fmt.Printf("  INCONCLUSIVE %s: %s (x%d)\n", s.Func, m, n)
 			}
+			if r.Truncated || r.NotEncoded > 0 || r.Budget > 0 || r.Stats.NUnknown > 0 {
+				// part of the stated bound was not decided: never reported as success
+				fmt.Printf("  INCOMPLETE %s: truncated=%v not-encoded=%d budget=%d solver-unknown=%d: the stated bound was not fully explored\n", s.Func, r.Truncated, r.NotEncoded, r.Budget, r.Stats.NUnknown)
+				broken++
+			}
 			if verbose {
 				for m, n := range r.Notes {
 					fmt.Printf("  note %s (x%d)\n", m, n)
@@ -252,6 +257,10 @@ func runProperty(prop, tier, only string, seed, workers int, verbose, noReplay b
 				r.Stats.Queries, r.Stats.NSat, r.Stats.NUnsat, r.Stats.NUnknown, r.Stats.SolveTime.Seconds(), r.WallS)
 			for m, n := range r.Problems {
 				fmt.Printf("  INCONCLUSIVE %s: %s (x%d)\n", name, m, n)
+			}
+			if r.Truncated || r.NotEncoded > 0 || r.Budget > 0 || r.Stats.NUnknown > 0 {
+				fmt.Printf("  INCOMPLETE %s: truncated=%v not-encoded=%d budget=%d solver-unknown=%d: the stated bound was not fully explored\n", name, r.Truncated, r.NotEncoded, r.Budget, r.Stats.NUnknown)
+				broken++
 			}
 			for _, c := range s.Covers {
 				if !r.Covers[c] {
@@ -587,7 +596,11 @@ func writeEvidence(prop, tier string, seed int, specs []HarnessSpec, results []*
 		for m := range r.Problems {
 			notEnc = append(notEnc, s.Func+": "+m)
 		}
-		bounds[s.Func] = s.Bounds
+		bk := s.Func
+		if s.Asm != "" {
+			bk = s.Func + ":" + s.Asm + ":" + s.T3
+		}
+		bounds[bk] = s.Bounds
 		assumptions = append(assumptions, s.Assumes...)
 		coversTot += len(s.Covers)
 		for _, c := range s.Covers {
@@ -602,7 +615,7 @@ func writeEvidence(prop, tier string, seed int, specs []HarnessSpec, results []*
 			disch++
 		}
 		perH = append(perH, map[string]interface{}{
-			"harness": s.Func, "what": s.Desc, "bounds": s.Bounds, "paths": r.Paths, "paths_completed": r.PathsDone,
+			"harness": s.Func + map[bool]string{true: ":" + s.Asm + ":" + s.T3, false: ""}[s.Asm != ""], "what": s.Desc, "bounds": s.Bounds, "paths": r.Paths, "paths_completed": r.PathsDone,
 			"paths_infeasible": r.Infeasible, "paths_ended_in_panic_or_violation": r.Ended, "not_encoded": r.NotEncoded,
 			"unwind_exceeded": r.Budget, "queries": r.Stats.Queries, "solver_s": r.Stats.SolveTime.Seconds(),
 			"wall_s": r.WallS, "max_decisions_on_a_path": r.MaxDecision, "truncated": r.Truncated, "notes": r.Notes,
